@@ -4945,7 +4945,10 @@ class ExpPiecewiseConvex(PiecewiseConvex):
             other = other.to_affine()
 
         if isinstance(other, DecAffine):
-            if not other.fixed and other.ctype != 'E':
+            static = other.fixed and len(other.event_adapt) == 1
+            if not static and other.ctype != 'E':
+                # as for affine expectations: a term outside E() must not
+                # depend on the scenario or on the random variables
                 raise ValueError('Incorrect expectation expressions.')
         elif isinstance(other, DecRoAffine):
             if other.ctype != 'E':
